@@ -198,6 +198,8 @@ class PyUnit:
                 st.vars[nm] = a
             outs = []
             for o in ex.exec_block(st, stmts):
+                if o[0] == "normal":
+                    o[1].vars["$fell_through"] = PBool(True)        # the fragment ran to its end (no return / raise inside it)
                 outs.append(("return", o[1], PNone()) if o[0] == "normal" else ("raise", o[1], o[2]) if o[0] == "raise"
                             else ("return", o[1], o[2]) if o[0] == "return" else ("return", o[1], PNone()))
         feasible = 0
